@@ -41,6 +41,7 @@ type stressIn struct {
 	Cache int `json:"cache"` // glob cache size
 	Swap  int `json:"swap"`  // tables the replacer goroutine cycles through (0/1 = no replacement)
 	Seed  int `json:"seed"`
+	Rnd   int `json:"rnd"` // 0: picker rr   1: picker rnd (fabio's default strategy)
 }
 
 const (
@@ -68,6 +69,9 @@ func stressTableText() string {
 	b.WriteString("route add rw rr.example/rw http://w1:80/ weight 0.25\n")
 	b.WriteString("route add rw rr.example/rw http://w2:80/\n")
 	b.WriteString("route add rw rr.example/rw http://w3:80/\n")
+	// a target that must never be chosen: the other one holds 100% of the traffic
+	b.WriteString("route add rz rr.example/rz http://z1:80/ weight 1\n")
+	b.WriteString("route add rz rr.example/rz http://z2:80/\n")
 	b.WriteString(`route add red red.example/ https://to.example$path opts "redirect=301"` + "\n")
 	// redirect routes of every template form, reachable from any host (no host in the route)
 	b.WriteString(`route add red-p /red-p https://to.example$path opts "redirect=301"` + "\n")
@@ -92,6 +96,7 @@ type routeOut struct {
 	Cursor uint64 `json:"cursor"`
 	Ring   []int  `json:"ring"`
 	Counts []int  `json:"counts"`
+	Picker string `json:"picker"`
 }
 
 type nullWriter struct {
@@ -111,7 +116,7 @@ func newRequest(host, path string) *http.Request {
 func tablePtr(t route.Table) uintptr { return reflect.ValueOf(t).Pointer() }
 
 func checkStressIn(in *stressIn) error {
-	if in.Kind < 0 || in.Kind > 3 || in.G < 1 || in.G > 64 || in.L < 1 || in.L > 2000000 || in.Cache < 1 || in.Cache > 64 || in.Swap < 0 || in.Swap > 16 {
+	if in.Kind < 0 || in.Kind > 3 || in.G < 1 || in.G > 64 || in.L < 1 || in.L > 2000000 || in.Cache < 1 || in.Cache > 64 || in.Swap < 0 || in.Swap > 16 || in.Rnd < 0 || in.Rnd > 1 {
 		return errors.New("out of range")
 	}
 	return nil
@@ -162,9 +167,19 @@ func childRun(raw json.RawMessage) (interface{}, error) {
 	route.SetTable(tables[0])
 	cache := route.NewGlobCache(in.Cache)
 	globOff := in.Kind == kindRR || in.Kind == kindRedirect
-	pick := route.Picker["rr"]
+	pickerName := []string{"rr", "rnd"}[in.Rnd]
+	pick := route.Picker[pickerName]
 	match := route.Matcher["prefix"]
-	px := newProxy(route.GetTable, cache, globOff)
+	px := newProxy(route.GetTable, cache, globOff, pickerName)
+	// slots: which targets of a route own at least one ring slot (positive weight)
+	inRing := map[targetID]bool{}
+	for i := range refs {
+		for j, rf := range refs[i] {
+			for _, k := range route.VerifC06Ring(rf.r) {
+				inRing[targetID{i, j, k}] = true
+			}
+		}
+	}
 
 	var mismatches, panics int64
 	var firstMismatch, firstPanic atomic.Value
@@ -221,7 +236,7 @@ func childRun(raw json.RawMessage) (interface{}, error) {
 						var host, path, wantSvc string
 						if in.Kind == kindRR {
 							host = "rr.example"
-							path = []string{"/rr", "/rw"}[rnd.Intn(2)]
+							path = []string{"/rr", "/rw", "/rz"}[rnd.Intn(3)]
 							wantSvc = path[1:]
 						} else {
 							l := stressLetters[rnd.Intn(len(stressLetters))]
@@ -250,6 +265,11 @@ func childRun(raw json.RawMessage) (interface{}, error) {
 							if id.table != tindex[tablePtr(tbl)] {
 								atomic.AddInt64(&mismatches, 1)
 								firstMismatch.CompareAndSwap(nil, "target of another table")
+								return
+							}
+							if !inRing[id] {
+								atomic.AddInt64(&mismatches, 1)
+								firstMismatch.CompareAndSwap(nil, "picked a target without a ring slot (weight 0): "+tg.URL.String())
 								return
 							}
 							counts[g][id.table][id.route][id.target]++
@@ -313,7 +333,7 @@ func childRun(raw json.RawMessage) (interface{}, error) {
 	for i := 0; i < nt; i++ {
 		for j := 0; j < nroutes; j++ {
 			r := refs[i][j].r
-			ro := routeOut{Table: i, Route: refs[i][j].name, Cursor: route.VerifC06Cursor(r), Counts: make([]int, len(r.Targets))}
+			ro := routeOut{Table: i, Route: refs[i][j].name, Cursor: route.VerifC06Cursor(r), Counts: make([]int, len(r.Targets)), Picker: pickerName}
 			for g := 0; g < in.G; g++ {
 				for k, c := range counts[g][i][j] {
 					ro.Counts[k] += c
@@ -430,9 +450,12 @@ func lastLines(s string, n int) string {
 
 // stressGen: the i-th case of a stream. The sizes are fixed per kind so that one case takes ≈ 2–3 s under the
 // race detector; the tier decides how many cases run (and the thorough tier gets the long ones: i ≥ 4).
-func stressGen(kind int) func(r *hx.Rand, i int) interface{} {
+func stressGen(kind int, rndPicker bool) func(r *hx.Rand, i int) interface{} {
 	return func(r *hx.Rand, i int) interface{} {
 		in := stressIn{Kind: kind, Seed: r.Intn(8)}
+		if rndPicker {
+			in.Rnd = 1
+		}
 		in.G = []int{8, 16, 4}[i%3]
 		per := map[int]int{kindRR: 160000, kindGlob: 24000, kindRedirect: 64000, kindMixed: 32000}[kind]
 		if i >= 4 {
@@ -451,9 +474,13 @@ func stressGen(kind int) func(r *hx.Rand, i int) interface{} {
 }
 
 func init() {
-	hx.Register(&hx.Stream{Name: "c06.child", Gen: stressGen(kindMixed), Run: childRun})
-	hx.Register(&hx.Stream{Name: "c06.rr-race", Gen: stressGen(kindRR), Run: stressRun(kindRR)})
-	hx.Register(&hx.Stream{Name: "c06.glob-race", Gen: stressGen(kindGlob), Run: stressRun(kindGlob)})
-	hx.Register(&hx.Stream{Name: "c06.redirect-race", Gen: stressGen(kindRedirect), Run: stressRun(kindRedirect)})
-	hx.Register(&hx.Stream{Name: "c06.mixed-race", Gen: stressGen(kindMixed), Run: stressRun(kindMixed)})
+	hx.Register(&hx.Stream{Name: "c06.child", Gen: stressGen(kindMixed, false), Run: childRun})
+	hx.Register(&hx.Stream{Name: "c06.rr-race", Gen: stressGen(kindRR, false), Run: stressRun(kindRR)})
+	hx.Register(&hx.Stream{Name: "c06.glob-race", Gen: stressGen(kindGlob, false), Run: stressRun(kindGlob)})
+	hx.Register(&hx.Stream{Name: "c06.redirect-race", Gen: stressGen(kindRedirect, false), Run: stressRun(kindRedirect)})
+	hx.Register(&hx.Stream{Name: "c06.mixed-race", Gen: stressGen(kindMixed, false), Run: stressRun(kindMixed)})
+	// the default strategy `rnd` on the literal-host routes (plain, weighted, zero-weight) and on the glob hosts
+	hx.Register(&hx.Stream{Name: "c06.rnd-race", Gen: func(r *hx.Rand, i int) interface{} {
+		return stressGen([]int{kindRR, kindMixed}[i%2], true)(r, i/2+i%2)
+	}, Run: stressRun(kindRR, kindMixed)})
 }
